@@ -9,17 +9,6 @@ import (
 
 func init() { register("C03", runC03) }
 
-// known classes in which a grammar-valid program is flagged (decided on the token text)
-func c03ValidFlaggedClass(toks []string) (string, string) {
-	for _, t := range toks {
-		if t == "1e308" || t == "1e999" {
-			continue
-		}
-	}
-	return "", ""
-}
-
-
 var luaKeywords = map[string]bool{"and": true, "break": true, "do": true, "else": true, "elseif": true, "end": true, "false": true, "for": true,
 	"function": true, "goto": true, "if": true, "in": true, "local": true, "nil": true, "not": true, "or": true, "repeat": true, "return": true,
 	"then": true, "true": true, "until": true, "while": true}
@@ -40,8 +29,10 @@ func tokenClass(t string) string {
 	return t
 }
 
-// numeral forms that are valid Lua but overflow float64 (finding C03-K3)
-func isOverflowNumeral(t string) bool { return t == "1e999" || t == "9e999" || t == "1E400" }
+// numeral forms that are valid Lua but overflow float64 (the former finding C03-K3: reported 'not a number')
+func isOverflowNumeral(t string) bool {
+	return t == "1e999" || t == "9e999" || t == "1E400" || t == "123456789e400" || t == "0.1e1000"
+}
 
 func runC03(res *lib.Result, tier string, seed int64, args []string) error {
 	nProg, nMut, nSoup := 1500, 6, 1500
@@ -82,10 +73,13 @@ func runC03(res *lib.Result, tier string, seed int64, args []string) error {
 			return nil
 		}
 		classes := make([]string, len(toks))
-		overflow := false
+		overflow := false // counted only: such numerals must be accepted like any other
 		for i, t := range toks {
 			classes[i] = tokenClass(t)
 			overflow = overflow || isOverflowNumeral(t)
+		}
+		if overflow {
+			res.Dist("numeral.overflows-float64")
 		}
 		ans, err := drv.Ask("recog " + lib.Hex([]byte(strings.Join(classes, "\n"))))
 		if err != nil {
@@ -111,18 +105,14 @@ func runC03(res *lib.Result, tier string, seed int64, args []string) error {
 		} else {
 			res.Dist(kind + ".oracle-invalid")
 		}
-		failing := (valid && nerr > 0 && !overflow) || (!valid && nerr == 0 && !relaxed)
+		failing := (valid && nerr > 0) || (!valid && nerr == 0 && !relaxed)
 		if diff != "" {
 			res.AddViolation("impl-vs-model", "parser: "+diff, caseText, !failing)
 			return nil
 		}
 		switch {
 		case valid && nerr > 0:
-			if overflow {
-				res.HitKnown("C03-K3", "a float literal whose value overflows float64 (e.g. 1e999, valid Lua, evaluates to inf) is reported as 'not a number'", caseText)
-			} else {
-				res.AddViolation("impl-vs-spec", fmt.Sprintf("valid chunk (S-ebnf derives it) reported with %d syntax error(s)", nerr), caseText, false)
-			}
+			res.AddViolation("impl-vs-spec", fmt.Sprintf("valid chunk (S-ebnf derives it) reported with %d syntax error(s)", nerr), caseText, false)
 		case !valid && nerr == 0:
 			if relaxed {
 				res.HitKnown("C03-K1", "an assignment whose target is a parenthesised expression or a call ('(a) = 1', 'a, f() = 1, 2') is accepted: checkVar replaces it by BadExpr without recording an error", caseText)
